@@ -127,7 +127,11 @@ def main(tier):
         exprs = [gen_expr(r) for _ in range(3000 if tier == "thorough" else 600)]
         glines = [f"detailobs {cfg},L100000 {r.getrandbits(128):032x} {hx(src)}" for src, cfg, chks in exprs]
         out = run.go_only("detailobs", glines, go_timeout=300)
-        for (src, cfg, chks), (ln, g) in zip(exprs, out):
+        # the same judgement on the SECOND evaluation of a program parsed once (Parse; RunAfterParsed; GetDetailText; RunAfterParsed)
+        nre = len(exprs) // 3
+        glines2 = [f"detailrerun {cfg},L100000 {r.getrandbits(128):032x} {hx(src)}" for src, cfg, chks in exprs[:nre]]
+        out2 = run.go_only("detailrerun", glines2, go_timeout=300)
+        for (src, cfg, chks), (ln, g) in list(zip(exprs, out)) + list(zip(exprs[:nre], out2)):
             rep = {"source": src, "cfg": cfg, "implementation": g[:400]}
             m = re.match(r"ok i(-?\d+) d=(\S+) m=(\S+) idem=(\d) pure=(\d)$", g)
             if not m:
